@@ -1339,6 +1339,23 @@ func (c *c07Ctx) strings(quick bool, corpus []c07File) {
 	}
 	c.strTable(tmuts, "corpus-tables-mutated")
 
+	// quoted qualifier values around the continuation indent: a value that BEGINS with a line break
+	// (and the indent), consecutive line breaks, a line of the indent alone, an indent twice as wide,
+	// a CR in front of the line feed, the value ending in a line break — LF and CRLF (seeded change
+	// C07-i: a "CRLF fix" of the strip loop read token[i-1] with i = 0)
+	{
+		ind := strings.Repeat(" ", 21)
+		var qs []string
+		for _, v := range []string{"\n" + ind + "text", "\n" + ind, "\n", "\n\n" + ind + "a", "a\n" + ind + "\n" + ind + "b", "a\n" + ind + ind + "b",
+			"a\r\n" + ind + "b", "\r\n" + ind + "b", "a\n" + ind, "a\n" + ind + "b\n", ind + "a", "a\n" + ind[:20] + "b", "a\n" + ind + " b"} {
+			for _, name := range []string{"note", "zzunknown", "translation"} {
+				t := "     gene            1..2\n" + ind + "/" + name + "=\"" + v + "\"\n"
+				qs = append(qs, t, t+ind+"/gene=\"g\"\n", strings.ReplaceAll(t, "\n", "\r\n"))
+			}
+		}
+		c.strTable(qs, "quoted-value-line-breaks")
+	}
+
 	// the key column: every key line (first and later ones) with the blanks between key and
 	// location removed or reduced, with a key as wide as or wider than the column, and tables
 	// whose first line fixes a narrower or wider column than the later lines use
